@@ -59,7 +59,14 @@ class StmtMixin:
         m = getattr(self, "st_" + type(s).__name__, None)
         if m is None:
             raise Unsupported(f"statement {type(s).__name__} (line {self.cur_line})")
-        return m(s, st)
+        from .values import TypeMismatch
+
+        try:
+            return m(s, st)
+        except TypeMismatch as e:
+            # a value of the wrong type reaches this statement: only acceptable on an infeasible path
+            self.oblige(st, smt.FALSE, f"type@L{self.cur_line}", "safety", text=f"path is infeasible ({e})")
+            return []
 
     def feasible(self, st, cond):
         return cond.op != "false"
@@ -71,6 +78,14 @@ class StmtMixin:
     def st_Expr(self, s, st):
         if isinstance(s.value, ast.Constant):
             return [(st, Flow.NORMAL, None)]  # docstring (dropped)
+        if isinstance(s.value, ast.Yield):
+            rpt = self.return_type()
+            if rpt is None or rpt.kind != "seq":
+                raise Unsupported("generator needs a Seq[...] return type in its contract")
+            v = self.eval(s.value.value, st, rpt.args[0])
+            cur = st.env.get("__yielded__") or SV(smt.SeqEmpty(self.tenv.sort(rpt.args[0])), rpt)
+            st.set_var("__yielded__", SV(smt.SeqConcat(cur.term, smt.SeqUnit(self.ops.term(v, rpt.args[0]))), rpt))
+            return [(st, Flow.NORMAL, None)]
         self.eval(s.value, st)
         return [(st, Flow.NORMAL, None)]
 
@@ -439,7 +454,7 @@ class StmtMixin:
             ),
         ]
         it = IterSpec(length=n, elem=lambda k: SV(self.ctx.app(en, k), ept), facts=facts)
-        it.enum_name, it.idx_name = en, ix
+        it.enum_name, it.idx_name, it.elem_pt = en, ix, ept
         return it
 
     def product_iter(self, parts, st, spec) -> IterSpec:
@@ -448,20 +463,28 @@ class StmtMixin:
             import itertools
 
             return IterSpec(concrete=list(itertools.product(*[s.concrete for s in subs])))
-        if len(subs) != 2 or any(s.concrete is not None for s in subs):
-            raise Unsupported("product of other than two symbolic iterables")
-        a, b = subs
-        # row-major enumeration: k -> (a[k div nb], b[k mod nb])
-        nb = b.length
-        n = smt.Mul(a.length, nb)
-        ln = self.ctx.fresh_const("n_prod", "Int")
-        facts = a.facts + b.facts + [smt.Eq(ln, n), smt.Ge(ln, smt.Int(0))]
-
-        def elem(k):
-            return (a.elem(smt.Div(k, nb)), b.elem(smt.Mod(k, nb)))
-
-        it = IterSpec(length=ln, elem=elem, facts=facts)
-        it.product_of = (a, b)
+        # product of two sets: every pair exactly once, in an order the contract does not depend on
+        vals = []
+        for p in parts:
+            if isinstance(p, SV) and p.pt.kind == "set":
+                vals.append(p)
+            elif isinstance(p, SV) and p.pt.kind == "map":
+                vals.append(SV(self.ops.map_dom(p), Set(p.pt.args[0])))
+            else:
+                raise Unsupported("product of other than sets")
+        if len(vals) != 2:
+            raise Unsupported("product of other than two sets")
+        a, b = vals
+        tpt = Tup(a.pt.args[0], b.pt.args[0])
+        ts = self.tenv.sort(tpt)
+        pairs = self.fresh("pairs", Set(tpt), st)
+        pv = smt.Var(smt.fresh_name("p"), ts)
+        pvv = SV(pv, tpt)
+        fst, snd = self.ops.tuple_item(pvv, 0), self.ops.tuple_item(pvv, 1)
+        st.assume(smt.Forall([(pv.args[0], ts)], smt.Eq(smt.Select(pairs.term, pv), smt.And(smt.Select(a.term, fst.term), smt.Select(b.term, snd.term)))))
+        inner = self.set_iter(pairs, st, spec)
+        it = IterSpec(length=inner.length, elem=lambda k: tuple(self.ops.tuple_item(inner.elem(k), i) for i in range(2)), facts=inner.facts)
+        it.enum_name, it.idx_name, it.elem_pt = inner.enum_name, inner.idx_name, tpt
         return it
 
     def st_For(self, s, st):
@@ -619,17 +642,20 @@ class StmtMixin:
         return out
 
     def bind_enum(self, name, it, st):
-        """Make `name(i)` usable in invariants as the i-th iterated element (ghost)."""
-        probe = it.elem(smt.Var("i", "Int"))
-        sf_name = f"{name}"
-        if isinstance(probe, tuple):
-            for j, comp in enumerate(probe):
-                self._bind_enum_one(f"{name}{j}", lambda k, j=j: it.elem(k)[j], st)
-        else:
-            self._bind_enum_one(sf_name, it.elem, st)
+        """Ghost names for invariants: name(i) = i-th iterated element, name_idx(x) = its position."""
+        st.env[name] = GhostFun(name, lambda k: it.elem(self.ops.term(k, INT)))
+        idx = getattr(it, "idx_name", None)
+        if idx is not None:
+            ept = getattr(it, "elem_pt", None)
 
-    def _bind_enum_one(self, name, elem, st):
-        st.env[name] = GhostFun(name, elem)
+            def idx_of(*xs):
+                x = xs[0] if len(xs) == 1 else tuple(xs)
+                want = ept
+                if want is None:
+                    want = self.ops.pt_of(x)
+                return SV(self.ctx.app(idx, self.ops.term(x, want)), INT)
+
+            st.env[name + "_idx"] = GhostFun(name + "_idx", idx_of)
 
     # ------------------------------------------------------------------ misc statements
     def st_Global(self, s, st):
